@@ -38,6 +38,7 @@ type step struct {
 
 type Case struct {
 	Variant string // nohost | host-notopic | host-topic
+	Resend  bool   // WithResend(true) on a receiver that has no topic to re-publish to (the option then has nothing to do)
 	Steps   []step
 }
 
@@ -49,6 +50,8 @@ func genVariant(t *rapid.T, topic bool) Case {
 	c := Case{Variant: rapid.SampledFrom([]string{"nohost", "nohost", "nohost", "nohost", "host-notopic"}).Draw(t, "variant")}
 	if topic {
 		c.Variant = "host-topic"
+	} else {
+		c.Resend = rapid.IntRange(0, 2).Draw(t, "resend") == 0
 	}
 	n := rapid.IntRange(1, 10).Draw(t, "nsteps")
 	ops := []string{"close", "close", "direct", "direct", "next", "next", "uncache"}
@@ -117,6 +120,9 @@ func execute(t *testing.T, c Case) (viol string, hang string) {
 			return true
 		}))
 		topic = ""
+	}
+	if c.Resend && c.Variant != "host-topic" {
+		opts = append(opts, announce.WithResend(true))
 	}
 	r, err := announce.NewReceiver(h, topic, opts...)
 	if err != nil {
@@ -448,7 +454,7 @@ func runCase(t *testing.T) func(Case) pbt.Result {
 
 func TestC16_Histories(t *testing.T) {
 	pbt.Run(t, pbt.Config{Prop: "C16", Unit: "TestC16_Histories", TrackCurrent: true,
-		Rule:        "histories of 1..10 calls over Close / Direct / Next / UncacheCid on a fresh receiver (without host; with a libp2p host and no topic), each call in its own goroutine, either awaited or started concurrently with the next; a counting model of the one-slot delivery channel (Directs that must have returned = min(pushes, consumers+1), Nexts = min(pushes, consumers)) says which calls may still be blocked; after Close every call, and four later calls, must return, Direct with the closed error, Close twice with nil, and the watcher goroutine must be gone; 'does not return' = not done after 2 s and reproduced twice more on fresh receivers. Non-trivial: >= 2 Close calls or a call after Close; distinct by case.",
+		Rule:        "histories of 1..10 calls over Close / Direct / Next / UncacheCid on a fresh receiver (without host; with a libp2p host and no topic; in a third of the cases created with WithResend(true), which has nothing to re-publish to), each call in its own goroutine, either awaited or started concurrently with the next; a counting model of the one-slot delivery channel (Directs that must have returned = min(pushes, consumers+1), Nexts = min(pushes, consumers)) says which calls may still be blocked; after Close every call, and four later calls, must return, Direct with the closed error, Close twice with nil, and the watcher goroutine must be gone; 'does not return' = not done after 2 s and reproduced twice more on fresh receivers. Non-trivial: >= 2 Close calls or a call after Close; distinct by case.",
 		Assumptions: []string{"2 s real time is 'promptly' (normal cost: microseconds); a non-return is only reported when it reproduces 3 of 3 times"},
 	}, genCase, runCase(t))
 }
